@@ -209,16 +209,42 @@ def r2_answers(ctx):
     ctx.floor("stores of the vary flag", len(vary_assigns), 1)
     R = Resolver(sp, keep=set(answers))
 
-    def lowered(e):
+    def lowered(e, depth=0):
         """e is the lower-cased (and possibly stripped) text of an answer"""
-        e = R.resolve(e) if hasattr(e, "_parent") else e
+        if depth > 6:
+            return False
         low = False
         while isinstance(e, ast.Call) and isinstance(
                 e.func, ast.Attribute) and e.func.attr in (
                 "strip", "lower") and not e.args:
             low = low or e.func.attr == "lower"
             e = e.func.value
-        return low and isinstance(e, ast.Name) and e.id in answers
+        if not isinstance(e, ast.Name):
+            return False
+        vs = R.reaching_values(e) if hasattr(e, "_parent") else None
+        vs = [v for v in (vs or []) if not (
+            isinstance(v, ast.Call) and call_name(v) == "input")]
+        if e.id in answers and low and not vs:
+            return True
+        if vs and len(vs) == 1:
+            # the name was re-bound to a processed form of an answer
+            return lowered(vs[0], depth + 1) if not low else \
+                _from_answer(vs[0], depth + 1)
+        return e.id in answers and low
+
+    def _from_answer(e, depth):
+        if depth > 6:
+            return False
+        while isinstance(e, ast.Call) and isinstance(
+                e.func, ast.Attribute) and e.func.attr in (
+                "strip", "lower") and not e.args:
+            e = e.func.value
+        if not isinstance(e, ast.Name):
+            return False
+        if e.id in answers:
+            return True
+        vs = R.reaching_values(e) if hasattr(e, "_parent") else None
+        return bool(vs) and len(vs) == 1 and _from_answer(vs[0], depth + 1)
 
     def eq_const(nd):
         """(constant, True) for `<lowered answer> == const`"""
